@@ -47,7 +47,19 @@ def build_run(tag, stmts, units, flavour="G_O0", std="c++14", decls="", extra_in
     stmts = list(stmts)
     rejected = {}
     last_err = ""
-    for attempt in range(8):
+
+    def isolate(cands):
+        """compile every statement alone (-fsyntax-only): exact rejection set even when diagnostics are deduplicated per specialisation"""
+        pre = PREAMBLE_TMPL % {"unit_includes": unit_includes(units), "decls": decls, "extra_includes": extra_includes}
+        comp, flags = core.FLAVOURS[flavour]
+
+        def one(st):
+            sid, code = st
+            rc, rej, loose = ccmon.compile_batch(pre, [(sid, f"static void vf_s{sid}() {{ using namespace au; {code} }}")], comp, std, f"{tag}_iso{sid}", extra_flags=extra_flags, timeout=timeout)
+            return sid, rc, (rej.get(sid) or loose or ["?"])
+        return {sid: msgs[:3] for sid, rc, msgs in core.pmap(one, cands) if rc != 0}
+
+    for attempt in range(4):
         core.write(src, emit(stmts, units, decls, extra_includes))
         rc, se = core.build(src, exe, flavour, std=std, timeout=timeout, extra_flags=extra_flags)
         if rc == 0:
@@ -57,8 +69,12 @@ def build_run(tag, stmts, units, flavour="G_O0", std="c++14", decls="", extra_in
         by, loose = ccmon.attribute(se)
         bad = {k // 10: v for k, v in by.items()}
         last_err = next((l for l in se.splitlines() if ": error:" in l), "")[:300]
-        if not bad:
-            raise core.Inconclusive(f"plane B TU {tag} ({flavour} {std}) failed to compile with no attributable statement: {se[:600]}")
+        if attempt >= 1 or not bad:
+            # diagnostics of a class template fire once per specialisation, so batch attribution can keep finding one more
+            # offender per round (or none at all): settle it by compiling the remaining statements one by one
+            bad = isolate(stmts)
+            if not bad:
+                raise core.Inconclusive(f"plane B TU {tag} ({flavour} {std}) fails as a whole although every statement compiles alone: {last_err}")
         rejected.update(bad)
         stmts = [s for s in stmts if s[0] not in bad]
     else:
